@@ -1,17 +1,190 @@
 import Carquet.Spec.Crc32
 import Carquet.Impl.Crc32
 import Carquet.Gen.Constants
+import Carquet.Proofs.Crc32Damage
 /-
-C14 — page checksums are IEEE CRC-32 and page damage is always detected.
-Property statements only; helper lemmas live in Carquet/Proofs/.
+C14 — page checksums are IEEE CRC-32 and page damage is always detected (function part:
+`carquet_crc32` / `carquet_crc32_update`; the page-verification order is a separate part).
+Property statements only; helper lemmas live in Carquet/Proofs/Crc32*.lean.
+
+`Spec.Crc32`  = bit-serial IEEE 802.3 CRC-32 written from the definition;
+`Impl.Crc32`  = model of src/util/crc32.c (table recurrence, slicing-by-8 loop, byte tail).
+All theorems hold for every input; there is no length bound anywhere.
 -/
 namespace Carquet.Properties.C14
 open Carquet
+open Carquet.Spec.Crc32 (BurstDamage bits xorBytes)
 
 /-- The polynomial the source currently defines (`CRC32_POLY`, re-extracted on every run) is the
 IEEE one used by the Spec and by the Impl model. -/
 theorem C14_poly_is_ieee :
     BitVec.ofNat 32 Gen.crc32Poly = Spec.Crc32.poly ∧ Impl.Crc32.poly = Spec.Crc32.poly := by
   decide
+
+/-! ## 1. The table-driven code computes the IEEE CRC-32 -/
+
+/-- `crc32_tables[0][i]` is eight zero-input LFSR steps applied to `i` (for every `i`, not only
+`i < 256`). -/
+theorem C14_table0_is_step8 : ∀ i : Nat, Impl.Crc32.table0 i = Spec.Crc32.step8 (BitVec.ofNat 32 i) :=
+  Proofs.Crc32.table0_eq
+
+example : Impl.Crc32.table0 1 = 0x77073096#32 ∧ Spec.Crc32.step8 1#32 = 0x77073096#32 := by decide
+
+/-- `carquet_crc32` (slicing-by-8 main loop + byte tail over the generated tables) equals the
+bit-serial IEEE CRC-32 on every input. -/
+theorem C14_impl_eq_spec : ∀ data : List UInt8, Impl.Crc32.crc32 data = Spec.Crc32.crc32 data :=
+  Proofs.Crc32.impl_crc32_eq
+
+-- 19 bytes: two rounds of the 8-byte loop and a 3-byte tail; both sides evaluated by the kernel.
+example : Impl.Crc32.crc32 [1,2,3,4,5,6,7,8,9,10,11,12,13,14,15,16,17,18,19] = 0xEE00AD46#32
+    ∧ Spec.Crc32.crc32 [1,2,3,4,5,6,7,8,9,10,11,12,13,14,15,16,17,18,19] = 0xEE00AD46#32 := by
+  decide +kernel
+-- the published check value, through the table code (one 8-byte round + 1 tail byte)
+example : Impl.Crc32.crc32 [0x31,0x32,0x33,0x34,0x35,0x36,0x37,0x38,0x39] = 0xCBF43926#32 := by
+  decide +kernel
+
+/-- `carquet_crc32_update` equals the Spec's incremental update for every starting value. -/
+theorem C14_impl_update_eq_spec : ∀ (crc : BitVec 32) (data : List UInt8),
+    Impl.Crc32.update crc data = Spec.Crc32.update crc data :=
+  Proofs.Crc32.impl_update_eq
+
+example : Impl.Crc32.update 0xCBF43926#32 [0x61,0x62,0x63,0x64,0x65,0x66,0x67,0x68,0x69,0x6A]
+    = Spec.Crc32.update 0xCBF43926#32 [0x61,0x62,0x63,0x64,0x65,0x66,0x67,0x68,0x69,0x6A] :=
+  C14_impl_update_eq_spec _ _
+
+/-! ## 2. Incremental updates compose -/
+
+/-- `crc(a ‖ b) = update(crc(a), b)` for the Spec … -/
+theorem C14_update_composes : ∀ a b : List UInt8,
+    Spec.Crc32.crc32 (a ++ b) = Spec.Crc32.update (Spec.Crc32.crc32 a) b :=
+  Proofs.Crc32.crc32_append
+
+example : Spec.Crc32.crc32 ([0x31,0x32,0x33] ++ [0x34,0x35,0x36,0x37,0x38,0x39])
+    = Spec.Crc32.update (Spec.Crc32.crc32 [0x31,0x32,0x33]) [0x34,0x35,0x36,0x37,0x38,0x39] :=
+  C14_update_composes _ _
+
+/-- … and for the model of the C code, at every split point — hence for every position of the
+8-byte main loop relative to the data (the split moves the loop's phase). -/
+theorem C14_update_composes_impl : ∀ a b : List UInt8,
+    Impl.Crc32.crc32 (a ++ b) = Impl.Crc32.update (Impl.Crc32.crc32 a) b := by
+  intro a b
+  rw [Proofs.Crc32.impl_crc32_eq, Proofs.Crc32.impl_crc32_eq, Proofs.Crc32.impl_update_eq]
+  exact Proofs.Crc32.crc32_append a b
+
+-- a 3 + 10 split: the whole is one 8-byte round + 5 tail bytes, the parts are 3 tail bytes and
+-- one round + 2 tail bytes; both sides evaluated by the kernel
+example : Impl.Crc32.crc32 ([1,2,3] ++ [4,5,6,7,8,9,10,11,12,13]) = 0xB720698D#32 ∧
+    Impl.Crc32.update (Impl.Crc32.crc32 [1,2,3]) [4,5,6,7,8,9,10,11,12,13] = 0xB720698D#32 := by
+  decide +kernel
+
+/-- Streaming over any number of chunks: `update` is a monoid action of concatenation, and
+`crc32` is `update` from the zlib start value 0. -/
+theorem C14_update_assoc : ∀ (crc : BitVec 32) (a b : List UInt8),
+    Impl.Crc32.update crc (a ++ b) = Impl.Crc32.update (Impl.Crc32.update crc a) b ∧
+    Impl.Crc32.update 0#32 a = Impl.Crc32.crc32 a := by
+  intro crc a b
+  refine ⟨?_, rfl⟩
+  simp only [Proofs.Crc32.impl_update_eq]
+  exact Proofs.Crc32.update_append crc a b
+
+example : Impl.Crc32.update 0xDEADBEEF#32 ([1,2,3,4,5] ++ [6,7,8,9,10,11,12,13,14])
+    = Impl.Crc32.update (Impl.Crc32.update 0xDEADBEEF#32 [1,2,3,4,5]) [6,7,8,9,10,11,12,13,14] :=
+  (C14_update_assoc _ _ _).1
+
+/-! ## 3. Damage confined to a burst of at most 32 bits is always detected
+
+Message bit positions are the positions at which the LFSR consumes the bits: byte by byte,
+least significant bit first (`Spec.Crc32.bits`).  `C14_bit_serial` justifies that reading. -/
+
+/-- The byte-wise register map is the bit-serial LFSR over the message bit stream `bits data`. -/
+theorem C14_bit_serial : ∀ (c : BitVec 32) (data : List UInt8),
+    Spec.Crc32.run c data = Spec.Crc32.runBits c (bits data) :=
+  Proofs.Crc32.run_eq_runBits
+
+example : Spec.Crc32.run 0xFFFFFFFF#32 [0x31, 0x80] =
+    Spec.Crc32.runBits 0xFFFFFFFF#32
+      [true,false,false,false,true,true,false,false, false,false,false,false,false,false,false,true] :=
+  C14_bit_serial _ _
+
+/-- **Burst detection.**  If `d'` has the same length as `d`, differs from it, and every message
+bit that differs lies inside one window of `w ≤ 32` consecutive bit positions (`BurstDamage`,
+decidable), then the checksum computed by the C code's algorithm differs.  No bound on the
+length, the position of the window, or its alignment to bytes or to the 8-byte loop. -/
+theorem C14_burst_detected : ∀ (w : Nat) (d d' : List UInt8), w ≤ 32 → BurstDamage w d d' →
+    Impl.Crc32.crc32 d ≠ Impl.Crc32.crc32 d' := by
+  intro w d d' hw h
+  rw [Proofs.Crc32.impl_crc32_eq, Proofs.Crc32.impl_crc32_eq]
+  exact Proofs.Crc32.crc32_burst_ne w hw d d' h
+
+-- a 32-bit burst straddling five bytes (bits 12..43 of an 11-byte message, not byte aligned,
+-- crossing the boundary of the 8-byte loop): bits 12, 13, 20, 27, 31, 36, 43 flipped
+example : Impl.Crc32.crc32 [1,2,3,4,5,6,7,8,9,10,11] ≠ Impl.Crc32.crc32 [1,0x32,0x13,0x8C,0x15,0x0E,7,8,9,10,11] :=
+  C14_burst_detected 32 _ _ (by decide) (by decide +kernel)
+
+/-- The same for the Spec checksum. -/
+theorem C14_burst_detected_spec : ∀ (w : Nat) (d d' : List UInt8), w ≤ 32 → BurstDamage w d d' →
+    Spec.Crc32.crc32 d ≠ Spec.Crc32.crc32 d' :=
+  fun w d d' hw h => Proofs.Crc32.crc32_burst_ne w hw d d' h
+
+example : Spec.Crc32.crc32 [1,2,3,4,5,6,7,8,9,10,11] ≠ Spec.Crc32.crc32 [1,0x32,0x13,0x8C,0x15,0x0E,7,8,9,10,11] :=
+  C14_burst_detected_spec 32 _ _ (by decide) (by decide +kernel)
+
+-- the bound 32 is sharp: a 33-bit burst (the generator polynomial itself, x^32 + … + 1, laid on
+-- bits 0..32) is NOT detected, so the theorem cannot be stated for a wider window
+example : BurstDamage 33 [0,0,0,0,0] [0x41,0x06,0x71,0xDB,0x01] ∧
+    Impl.Crc32.crc32 [0,0,0,0,0] = Impl.Crc32.crc32 [0x41,0x06,0x71,0xDB,0x01] := by
+  decide +kernel
+
+/-- Error-pattern form (DESIGN §3): xoring into `d` a non-zero pattern `e` of the same length
+whose 1-bits lie inside a window of `w ≤ 32` bit positions changes the checksum. -/
+theorem C14_burst_detected_xor : ∀ (w s : Nat) (d e : List UInt8), w ≤ 32 → e.length = d.length →
+    (∃ i : Nat, (bits e)[i]? = some true) →
+    (∀ i : Nat, (bits e)[i]? = some true → s ≤ i ∧ i < s + w) →
+    Impl.Crc32.crc32 (xorBytes d e) ≠ Impl.Crc32.crc32 d := by
+  intro w s d e hw hlen hnz hwin
+  exact (C14_burst_detected w d (xorBytes d e) hw
+    (Proofs.Crc32.burstDamage_xor w d e hlen s hnz hwin)).symm
+
+example : Impl.Crc32.crc32 (xorBytes [9,8,7,6,5,4,3,2,1,0] [0,0,0,0x80,0xFF,0x00,0xFF,0x7F,0,0])
+    ≠ Impl.Crc32.crc32 [9,8,7,6,5,4,3,2,1,0] :=
+  C14_burst_detected_xor 32 31 _ _ (by decide) (by decide) ⟨31, by decide⟩ (by
+    intro i hi
+    have hlt : i < 80 := by
+      rcases Nat.lt_or_ge i 80 with h | h
+      · exact h
+      · rw [List.getElem?_eq_none (by simpa [Proofs.Crc32.length_bits] using h)] at hi; cases hi
+    revert hi; revert i; decide +kernel)
+
+/-- Any change confined to at most four consecutive bytes (anywhere, any alignment). -/
+theorem C14_four_bytes_detected : ∀ (p m m' q : List UInt8), m.length = m'.length → m.length ≤ 4 →
+    m ≠ m' → Impl.Crc32.crc32 (p ++ m ++ q) ≠ Impl.Crc32.crc32 (p ++ m' ++ q) := by
+  intro p m m' q hl h4 hne
+  exact C14_burst_detected 32 _ _ (Nat.le_refl _)
+    (Proofs.Crc32.burstDamage_of_split 32 p m m' q hl hne (by omega))
+
+example : Impl.Crc32.crc32 ([1,2,3,4,5,6,7] ++ [8,9,10,11] ++ [12,13,14]) ≠
+    Impl.Crc32.crc32 ([1,2,3,4,5,6,7] ++ [0xFF,9,10,0] ++ [12,13,14]) :=
+  C14_four_bytes_detected _ _ _ _ rfl (by decide) (by decide)
+
+/-- Any change of a single byte. -/
+theorem C14_single_byte_detected : ∀ (d : List UInt8) (k : Nat) (hk : k < d.length) (v : UInt8),
+    v ≠ d[k] → Impl.Crc32.crc32 (d.set k v) ≠ Impl.Crc32.crc32 d := by
+  intro d k hk v hv
+  exact (C14_burst_detected 8 _ _ (by omega) (Proofs.Crc32.burstDamage_set d k hk v hv)).symm
+
+example : Impl.Crc32.crc32 ([10,20,30,40,50,60,70,80,90,100].set 8 0) ≠
+    Impl.Crc32.crc32 [10,20,30,40,50,60,70,80,90,100] :=
+  C14_single_byte_detected _ 8 (by decide) 0 (by decide)
+
+/-- Any single flipped bit (bit `j` of byte `k`). -/
+theorem C14_single_bit_detected : ∀ (d : List UInt8) (k : Nat) (hk : k < d.length) (j : Fin 8),
+    Impl.Crc32.crc32 (d.set k (d[k] ^^^ ((1 : UInt8) <<< j.val.toUInt8))) ≠ Impl.Crc32.crc32 d := by
+  intro d k hk j
+  exact C14_single_byte_detected d k hk _
+    (Proofs.Crc32.xor_mask_ne _ _ (Proofs.Crc32.bit_mask_ne_zero j))
+
+example : Impl.Crc32.crc32 [10,20,30,40,50,60,70,80,90 ^^^ 0x20,100] ≠
+    Impl.Crc32.crc32 [10,20,30,40,50,60,70,80,90,100] :=
+  C14_single_bit_detected [10,20,30,40,50,60,70,80,90,100] 8 (by decide) 5
 
 end Carquet.Properties.C14
